@@ -6,6 +6,8 @@ import (
 	"encoding/hex"
 	"fmt"
 	"strconv"
+	"strings"
+	"time"
 
 	"github.com/gauss-project/aurorafs/pkg/boson"
 	"github.com/gauss-project/aurorafs/pkg/cac"
@@ -21,7 +23,7 @@ func init() { core.Register(prop{}) }
 func (prop) ID() string { return "C04" }
 func (prop) Rule() string {
 	return "cases: create a chunk with New (data lengths 0,1,7,8,9,31..33,63..65,4096, C-1,C,C+1, random) or NewWithDataSpan (payload lengths 0,7,8,9,C+7,C+8,C+9, random; arbitrary span bytes) " +
-		"or set an arbitrary (address,payload) pair; then interleave valid / single-byte XOR mutations of payload (every position for small chunks, random positions for big ones, incl. span bytes) and of all 32 address bytes / undo / truncate / extend (zero and non-zero bytes, past C+8). " +
+		"or set an arbitrary (address,payload) pair (incl. empty/short/long addresses against every payload length class); `par k` ops run k (up to 128 > pool size 32) concurrent New/Valid/mutated-Valid rounds on the shared BMT pool with a hang watchdog; then interleave valid / single-byte XOR mutations of payload (every position for small chunks, random positions for big ones, incl. span bytes) and of all 32 address bytes / undo / truncate / extend (zero and non-zero bytes, past C+8). " +
 		"Non-trivial: a chunk was created and >=1 mutation followed by valid; distinct by op-list hash. Big (>=64 KiB) payloads limited to keep the Lean side fast."
 }
 
@@ -39,6 +41,17 @@ func (prop) Gen(r *core.Rand, tier string) []core.Case {
 		core.Case{ID: "fix-full", NT: true, Ops: []string{fmt.Sprintf("new p:3:%d:1000", C), "valid", "extend h:00", "valid", fmt.Sprintf("new p:3:%d:1000", C+1),
 			fmt.Sprintf("newspan p:4:%d:512", C+8), "valid", fmt.Sprintf("mutp %d 128", C+7), "valid", fmt.Sprintf("newspan p:4:%d:512", C+9)}},
 	)
+	// arbitrary (address, payload) pairs with degenerate addresses: empty, short, long — for every payload length class
+	for j, l := range []int{0, 7, 8, 9, 100, C + 8, C + 9, C + 100} {
+		for k, a := range []string{"-", "00", hex.EncodeToString(make([]byte, 31)), hex.EncodeToString(make([]byte, 33))} {
+			src := fmt.Sprintf("p:%d:%d:997", j, l)
+			cs = append(cs, core.Case{ID: fmt.Sprintf("fix-degenerate-addr-%d-%d", j, k), NT: false, Ops: []string{"set " + a + " " + src, "valid", "extend h:00", "valid"}})
+		}
+	}
+	// concurrent creation/validation on the shared BMT pool (more workers than pooled trees)
+	for j := 0; j < 3; j++ {
+		cs = append(cs, core.Case{ID: fmt.Sprintf("fix-par-%d", j), NT: true, Ops: []string{fmt.Sprintf("par %d %d %d", 96+16*j, r.Intn(1000), r.Range(1, 4096)), "par 40 7 64"}})
+	}
 	bigUsed := 0
 	for i := 0; i < n; i++ {
 		c := core.Case{ID: fmt.Sprintf("g%d", i)}
@@ -127,6 +140,8 @@ func (prop) Gen(r *core.Rand, tier string) []core.Case {
 	}
 	return cs
 }
+
+func parLen(n, i int) int { return 1 + (n+37*i)%4096 }
 
 type chunk struct{ addr, data []byte }
 
@@ -217,6 +232,60 @@ func (rn *runner) Step(ctx *core.Ctx, op []string) string {
 		}
 		ch, err := cac.NewWithDataSpan(p)
 		return rn.create(ctx, ch, err, want, "newspan")
+	case len(op) == 4 && op[0] == "par":
+		k, e1 := strconv.Atoi(op[1])
+		seed, e2 := strconv.Atoi(op[2])
+		n, e3 := strconv.Atoi(op[3])
+		if e1 != nil || e2 != nil || e3 != nil || k < 1 || k > 256 || n < 1 || n > 8192 {
+			return "bad-op"
+		}
+		outs := make([]string, k)
+		bad := make([]string, k)
+		done := make(chan int, k)
+		for i := 0; i < k; i++ {
+			go func(i int) {
+				defer func() {
+					if e := recover(); e != nil {
+						bad[i] = fmt.Sprint("panic: ", e)
+					}
+					done <- i
+				}()
+				d := core.GenBytes(uint64(seed+i), parLen(n, i), 0)
+				ch, err := cac.New(d)
+				if err != nil {
+					bad[i] = "New failed: " + err.Error()
+					return
+				}
+				outs[i] = hex.EncodeToString(ch.Address().Bytes()[:8])
+				if !refValid(ch.Address().Bytes(), ch.Data()) {
+					bad[i] = "address is not the BMT hash of the payload"
+				} else if !cac.Valid(ch) {
+					bad[i] = "fresh chunk rejected by Valid"
+				} else {
+					p := append([]byte(nil), ch.Data()...)
+					p[len(p)-1] ^= 1
+					if cac.Valid(boson.NewChunk(ch.Address(), p)) {
+						bad[i] = "payload-mutated chunk accepted by Valid"
+					}
+				}
+			}(i)
+		}
+		timeout := time.After(40 * time.Second)
+		for got := 0; got < k; got++ {
+			select {
+			case <-done:
+			case <-timeout:
+				ctx.Fail("par-hang", "%d of %d concurrent New/Valid calls never returned", k-got, k)
+				return "hang"
+			}
+		}
+		for i, b := range bad {
+			if b != "" {
+				ctx.Fail("par-wrong", "worker %d (len %d): %s", i, parLen(n, i), b)
+				break
+			}
+		}
+		return strings.Join(outs, ",")
 	case len(op) == 3 && op[0] == "set":
 		a, err := core.UnHex(op[1])
 		p, ok := core.ParseSrc(op[2])
